@@ -109,7 +109,8 @@ def build_plan(choice: Choice, tier):
                     st = [None, 1, 2, -1, -2][d(5, "slice.step")]
                     ops.append(["slice", None if a < 0 else a, None if b < 0 else b, st])
                 elif o == 5:
-                    ops.append(["list", [d(m, "list.i") - (m if d(4, "list.neg") == 3 else 0) for _ in range(d(4, "list.len"))] if m else []])
+                    ops.append(["list", [d(m, "list.i") - (m if d(4, "list.neg") == 3 else 0) for _ in range(d(4, "list.len"))] if m else [],
+                                ["list", "tuple", "generator", "iter", "reversed"][d(5, "list.form")]])
                 elif o == 6:
                     ops.append(["len"])
                 else:
@@ -282,8 +283,14 @@ def execute(plan, choice, tmpdir, trace):
                         viol.append({"class": "wrong-text", "site": "slice:length", "message": f"{name} f[{sl}] has {len(got)} items, expected {len(exp)}"})
             elif kind == "list":
                 idxs = op[1]
+                form = op[2] if len(op) > 2 else "list"
+                if form == "reversed":
+                    idxs = list(reversed(idxs))
                 exp = [ref[i] for i in idxs]
-                got = [unwrap(x) for x in obj[list(idxs)]]
+                # "index iterables select like a list": any iterable of ints, also a one-shot one
+                sel = {"list": list(idxs), "tuple": tuple(idxs), "generator": (i for i in idxs), "iter": iter(list(idxs)),
+                       "reversed": reversed(list(reversed(idxs)))}[form]
+                got = [unwrap(x) for x in obj[sel]]
                 if got != exp:
                     for g, e in zip(got, exp):
                         if g != e:
